@@ -81,7 +81,7 @@ func lockKindOf(info *types.Info, fd *ast.FuncDecl, mx *types.Var) string {
 
 // RuleG1: lock discipline of every type that carries a mutex.
 func RuleG1(c *Ctx) {
-	sc := c.Run.Begin("G1", "in every type with a mutex field, each method reads the fields it guards with the lock held (R or W) and writes them with the write lock held, on every path; unexported helpers that touch them unlocked are called only with the lock held; the unsynchronised UserSchemas variant is never shared", 2)
+	sc := c.Run.Begin("G1", "in every type with a mutex field, each method reads the fields it guards with the lock held (R or W) and writes them with the write lock held, on every path; unexported helpers that touch them unlocked are called only with the lock held; the unsynchronised UserSchemas variant is never shared", 1)
 	defer sc.End()
 	lts := c.lockedTypes()
 	if len(lts) < 6 {
@@ -444,7 +444,7 @@ func typeMentions(t types.Type, target *types.Named, depth int) bool {
 // RuleL1: no callback run under a collection's lock re-enters the same collection
 // with an incompatible lock.
 func RuleL1(c *Ctx) {
-	sc := c.Run.Begin("L1", "no function literal passed to a locking iterator/updater of a collection reaches (through static calls) a method of the same collection field that needs an incompatible lock (anything inside a write lock, a write inside a read lock): no self-deadlock", 2)
+	sc := c.Run.Begin("L1", "no function literal passed to a locking iterator/updater of a collection reaches (through static calls) a method of the same collection field that needs an incompatible lock (anything inside a write lock, a write inside a read lock): no self-deadlock", 1)
 	defer sc.End()
 	lts := c.lockedTypes()
 	kindOf := map[*types.Func]string{}
